@@ -17,7 +17,9 @@ import delgen as G
 RULE = ("deletion/expiry histories over 1-3 clusters that share group and topic names, groups sharing topics, groups with a single "
         "topic; events: delete whole group / one topic of a group (last, one of several, foreign, unknown) / topic (shared, single, "
         "unconsumed, unknown) / unknown cluster, expiry by advancing the clock past expire-group with some groups refreshed, commits "
-        "at -60000/-1000/-1/0/+1 ms of the too-old boundary, re-ingestion after deletion; every event is bracketed by all fetch types for "
+        "at -60000/-1000/-1/0/+1 ms of the too-old boundary, re-ingestion after deletion; 25 % of the histories with a huge legal "
+        "expire-group (9223372036 .. 10^15 and the edge of in_i64((now-expire)*1000)) where commits seconds..a year old must be kept and "
+        "nothing expires; every event is bracketed by all fetch types for "
         "all keys. non-trivial = a history with a deletion whose target was present before AND at least two other non-empty replies "
         "in the same bracket (something to preserve); distinct by the history line")
 
